@@ -66,8 +66,12 @@ structure Key where
   names : Option (List String) := none
 deriving DecidableEq, Repr, Inhabited
 
-/-- the JSON name a bound property answers to (`bind` fills `source` with the name) -/
-def Key.src (k : Key) : String := k.source.getD k.name
+/-- the JSON name a bound property answers to: `bind` does `if not self.source: self.source = name`,
+    so a missing *or empty* source is replaced by the attribute name -/
+def Key.src (k : Key) : String :=
+  match k.source with
+  | some s => if s = "" then k.name else s
+  | none => k.name
 
 inductive Elem where
   | mk (cls : Cls) (kw : Kw)
